@@ -113,7 +113,58 @@ func rejections(info *types.Info, cc *ast.CaseClause, exit string, recv types.Ob
 
 // canonExpr renders an expression with local variables replaced by their names
 // (names matter here: both functions call the operands val/key) and literals kept.
-func canonExpr(info *types.Info, e ast.Expr) string { return exprStr(e) }
+func canonExpr(info *types.Info, e ast.Expr) string {
+	names := map[types.Object]string{}
+	var b strings.Builder
+	var walk func(n ast.Node)
+	walk = func(n ast.Node) {
+		switch x := n.(type) {
+		case nil:
+		case *ast.Ident:
+			if v, ok := info.Uses[x].(*types.Var); ok && !v.IsField() && v.Pkg() != nil && v.Parent() != v.Pkg().Scope() {
+				nm, ok := names[v]
+				if !ok {
+					// parameters and receivers keep their role (their position is the same in both siblings), locals are numbered
+					nm = fmt.Sprintf("v%d:%s", len(names)+1, types.TypeString(v.Type(), func(p *types.Package) string { return p.Name() }))
+					names[v] = nm
+				}
+				b.WriteString(nm)
+				return
+			}
+			b.WriteString(x.Name)
+		case *ast.BinaryExpr:
+			b.WriteString("(")
+			walk(x.X)
+			b.WriteString(" " + x.Op.String() + " ")
+			walk(x.Y)
+			b.WriteString(")")
+		case *ast.UnaryExpr:
+			b.WriteString(x.Op.String())
+			walk(x.X)
+		case *ast.ParenExpr:
+			walk(x.X)
+		case *ast.SelectorExpr:
+			walk(x.X)
+			b.WriteString("." + x.Sel.Name)
+		case *ast.CallExpr:
+			walk(x.Fun)
+			b.WriteString("(")
+			for i, a := range x.Args {
+				if i > 0 {
+					b.WriteString(", ")
+				}
+				walk(a)
+			}
+			b.WriteString(")")
+		case *ast.BasicLit:
+			b.WriteString(x.Value)
+		default:
+			b.WriteString(exprStr(n.(ast.Expr)))
+		}
+	}
+	walk(e)
+	return b.String()
+}
 
 func runIndexAgrees(rr *RuleRun) {
 	info := rr.Ctx.Info("cty")
